@@ -36,7 +36,7 @@ class Model:
 
 class Stage:
     def __init__(self, name, module, run, cases, nontrivial=None, init=None, cfg=None, env=None,
-                 chunk=20000, procs=None, sample=None, post=None, aux=None):
+                 chunk=20000, procs=None, sample=None, post=None, aux=None, killable=None):
         self.name = name
         self.module = module        # Trace_* module
         self.run = run              # picklable top-level function: case -> record (adds observations)
@@ -48,6 +48,7 @@ class Stage:
         self.chunk = chunk
         self.procs = procs
         self.sample = sample
+        self.killable = killable    # (on_timeout, budget): run the cases in killable forked batches (core.pmap)
         self.post = post            # optional: (records) -> records  (harness-side cross-record joins)
         self.aux = aux              # shared JSON-able data (scheme tables ...): given to init() and to TLC (AUX_FILE)
 
@@ -137,7 +138,8 @@ def run_check(pid, tier, replay=None):
             if st.run is None:
                 records = cases
             else:
-                records = core.pmap(st.run, cases, initfn=st.init, procs=st.procs or core.NCPU, aux=st.aux)
+                records = core.pmap(st.run, cases, initfn=st.init, procs=st.procs or core.NCPU, aux=st.aux,
+                                    killable=getattr(st, "killable", None))
             if st.post:
                 records = st.post(records)
             t_impl = time.time() - ts
